@@ -57,6 +57,7 @@ func runC12(c *Ctx) {
 	c12EndToEnd(c)
 	c12Handler(c)
 	c12recvq(c)
+	c12flusher(c)
 	c12Nodes(c)
 }
 
